@@ -25,7 +25,12 @@ def clone(g):
 
 
 def c(v):
-    return core.canon(v)
+    return "nan" if v is NAN else core.canon(v)
+
+
+def py(v):
+    import numpy
+    return numpy.nan if v is NAN else v
 
 
 def snapshot(g, err, univ):
@@ -82,7 +87,7 @@ def apply_op(g, op):
     k = op[0]
     try:
         if k == "group":
-            g.group(op[1], op[2])
+            g.group(py(op[1]), py(op[2]))
         elif k == "group_list":
             g.group_list(list(op[1]), op[2])
         elif k == "append":
@@ -108,6 +113,7 @@ def ops_at(g, U):
     """the operation alphabet of the exhaustive enumeration, in the current implementation state"""
     cur = list(g)
     ops = [("group", d, k) for d in U for k in U]
+    ops += [("group", NAN, NAN), ("group", NAN, U[0]), ("group", U[0], NAN), ("group", "zz", NAN)]
     ops += [("append", v) for v in U + EXTRA_APPEND]
     ops += [("remove", v) for v in U]
     ops += [("pop", i) for i in (0, -1, 1, 7)]
@@ -228,7 +234,8 @@ def random_history(gl_cls, rng, univ, maxlen):
                 op = ("update", d)
         else:
             pick = lambda: rng.choice(U + ["zz"])
-            op = rng.choice([("group", pick(), pick()), ("append", pick()), ("remove", pick()),
+            op = rng.choice([("group", pick(), pick()), ("group", NAN, NAN), ("group", NAN, pick()), ("group", pick(), NAN),
+                             ("append", pick()), ("remove", pick()),
                              ("pop", rng.randint(-9, 9)), ("sort_by", rng.sample(U, rng.randint(0, 5))),
                              ("replace_group_leader", pick(), pick()),
                              ("group_list", [pick(), pick()], pick()),
@@ -243,7 +250,7 @@ def op_unwire(w):
     u = core.uncanon
     k = w["o"]
     if k == "group":
-        return (k, u(w["d"]), u(w["k"]))
+        return (k, NAN if w["d"] == "nan" else u(w["d"]), NAN if w["k"] == "nan" else u(w["k"]))
     if k == "group_list":
         return (k, [u(x) for x in w["ds"]], u(w["k"]))
     if k in ("append", "remove"):
